@@ -1,8 +1,8 @@
 package props
 
 import (
-	"context"
 	"bytes"
+	"context"
 	"fmt"
 	"math/big"
 
